@@ -70,6 +70,9 @@ impl World {
         // (not for collect_debt: it alone may finish the cycle and be back in a *new* marking phase
         // when it returns or unwinds - the fence of DESIGN 3 - so "stayed in marking" is unknowable)
         let work0 = if self.cfg.coverage && call != Call::CollectDebt && matches!(p, Phase::Marking | Phase::Marked) { self.snapshot(a).map(|s| mark_work(&s)) } else { None };
+        // the same for a call that stays inside the sweep: what it may pay is what it kept,
+        // destructed and released
+        let sweep0 = if self.cfg.coverage && call != Call::CollectDebt && p == Phase::Sweeping && dpos { self.snapshot(a) } else { None };
 
         self.shield(&protect, &weak_protect);
         let res = {
@@ -173,6 +176,41 @@ impl World {
                             m1 as i64 - m0 as i64,
                             t1 as i64 - t0 as i64
                         ),
+                    );
+                    return;
+                }
+            }
+        }
+        if let (Some(s0), true, false) = (sweep0, post == Phase::Sweeping, unwound) {
+            if let Some(s1) = self.snapshot(a) {
+                let after: std::collections::BTreeMap<usize, (bool, bool)> = s1.objects.iter().map(|o| (o.addr, (o.live, o.pending_sweep))).collect();
+                let (mut kept, mut destructed, mut freed) = (0u32, 0u32, 0u32);
+                for o in s0.objects.iter().filter(|o| o.pending_sweep) {
+                    match after.get(&o.addr) {
+                        None => {
+                            freed += 1;
+                            destructed += o.live as u32;
+                        }
+                        Some((live1, pending1)) => {
+                            if !*pending1 {
+                                kept += 1;
+                                destructed += (o.live && !*live1) as u32;
+                            }
+                        }
+                    }
+                }
+                let work = pacing.keep * kept as f64 + pacing.drop * destructed as f64 + pacing.free * freed as f64;
+                let paid = d0 - d1;
+                let dyadic = [pacing.mark, pacing.trace, pacing.keep, pacing.drop, pacing.free].iter().all(|f| (f * 1024.0).fract() == 0.0);
+                let hidden = self.rt[a as usize].debt_scale.max(self.rt[a as usize].allocs as f64);
+                let scale = d0.abs().max(work.abs()).max(hidden);
+                let tol = if dyadic { 64.0 * f64::EPSILON * scale } else { 1e-9 * (1.0 + scale) };
+                self.stats.flag("C10.sweep-work-checked");
+                // (address reuse cannot confuse the comparison: nothing is allocated inside a collection call)
+                if paid > work + tol {
+                    self.violate(
+                        "C10.decrease",
+                        format!("{call:?} on arena {a} stayed inside the sweep; it kept {kept} objects, destructed {destructed} values and released {freed} blocks (worth {work} at the current pacing) but allocation_debt went from {d0} to {d1}"),
                     );
                     return;
                 }
